@@ -424,6 +424,17 @@ def run_check(eng, prop, tier, seed, workers=None, budget_s=None, max_tasks=None
         path = write_replay(prop, eng, seed, small, res)
         same, got = _verify_replay_fresh(prop, path, v["clause"], v["step"], res["digest"])
         if not same:
+            # reproduced here (a process that has executed other runs) but not in a fresh interpreter: history dependent as well
+            hpath = _history_violation(prop, eng, seed, tier, rep) if rep.get("proc_history") is not None else None
+            if hpath:
+                os.unlink(path)
+                v0 = rep["violation"]
+                print(f"  clause={v0['clause']} step={v0['step']} runs_hit={n} detail={v0['detail']} "
+                      f"[needs the runs executed before it in the same process: see the replay file]")
+                print(f"VIOLATION property={prop} replay={hpath}", flush=True)
+                n_viol_lines += 1
+                exit_code = 1
+                continue
             harness_errors.append(f"replay of {path} in a fresh interpreter differs: {got}")
             continue
         print(f"  clause={v['clause']} step={v['step']} runs_hit={n} ops={len(small['ops'])} detail={v['detail']}")
